@@ -129,6 +129,16 @@ Theorem C07_max_u8_avx2_eq_spec :
   exists o, max_u8_avx2 m = Ok o /\ max_spec Z.leb m o.
 Proof. exact max_u8_avx2_ok. Qed.
 
+(* the f32 vector arg-max kernels as the driver evaluates them (row index not rebuilt for every
+   row when the matrix has at most 2^32 rows) are the kernels, for every input *)
+Theorem C07_fast_kernels_eq :
+  forall (T : Type) (le lt : T -> T -> bool) (ninf : T) (C : nat) (a : arm) (max_index : N) (m : list (list T)),
+  argmax_f32_avx2_fast le lt max_index m = argmax_f32_avx2 le lt max_index m /\
+  argmax_sse2_fast le ninf C max_index m = argmax_sse2 le ninf C max_index m /\
+  pipeline_sse2_max_fast le ninf C max_index m = pipeline_sse2_max le ninf C max_index m /\
+  dispatch_argmax_f32_fast le lt ninf a max_index m = dispatch_argmax_f32 le lt ninf a max_index m.
+Proof. intros T le lt ninf C a mi m. exact (fast_kernels_eq le lt ninf C a mi m). Qed.
+
 (* ================= dispatcher: every arm ================= *)
 
 Theorem C07_dispatch_f32 :
@@ -171,6 +181,29 @@ Proof.
   - intros Hr. exact (dispatch_argmax_u8_ok a m Hwf Hu Hr).
   - exact (dispatch_max_u8_ok a m Hwf Hu).
   - exact (threshold_generic_ok Z.leb m t).
+Qed.
+
+(* the dispatcher as compiled on Arm hosts (variants Generic and Neon; 16 columns there, stated
+   for any column count): every arm meets the specifications and there is no guard at all.
+   Modelled from the source: these arms are not compiled on the x86_64 host of the checks. *)
+Theorem C07_dispatch_armhost :
+  forall (T : Type) (le : T -> T -> bool) (good : T -> Prop), preorder_on good le ->
+  forall (a b : neon_arm) (C : nat) (m : list (list T)) (t : T), 0 < C -> wf C m -> all_good good m ->
+  (exists o, armhost_dispatch_argmax le a m = Ok o /\ argmax_spec le C m o) /\
+  (exists o, armhost_dispatch_max le a m = Ok o /\ max_spec le m o) /\
+  threshold_spec le m t (armhost_dispatch_threshold le a m t) /\
+  armhost_dispatch_argmax le a m = armhost_dispatch_argmax le b m /\
+  armhost_dispatch_max le a m = armhost_dispatch_max le b m /\
+  armhost_dispatch_threshold le a m t = armhost_dispatch_threshold le b m t.
+Proof.
+  intros T le good PO a b C m t HC Hwf Hg.
+  split; [|split; [|split; [|split; [|split]]]].
+  - destruct a; exact (argmax_generic_ok le good PO C m HC Hwf Hg).
+  - destruct a; exact (max_generic_ok le good PO C m HC Hwf Hg).
+  - exact (threshold_generic_ok le m t).
+  - destruct a, b; reflexivity.
+  - destruct a, b; reflexivity.
+  - reflexivity.
 Qed.
 
 (* all arms agree on the maximum value and on the threshold list *)
